@@ -1,5 +1,6 @@
-use vkit::Check;
+mod c08;
+mod fx;
+use vkit::{Check, Level};
 fn main() {
-    let checks: &[Check] = &[];
-    vkit::main(checks);
+    vkit::main(&[Check { id: "C08", level: Level::ModelChecking, run: c08::run }]);
 }
